@@ -256,7 +256,7 @@ def stop_scripts(tier, seed):
     blocks = []
     for i in range(n):
         root = (ROOTS + SMALL_ROOTS)[rng.below(len(ROOTS) + len(SMALL_ROOTS))]
-        lines = ["# s%d" % i, "new " + root]
+        lines = ["# s%d" % i, "cleartable", "new " + root]
         for _ in range(rng.below(14)):
             lines.append("pick %d" % rng.below(1 << 40))
         lines.append("obs")
@@ -740,8 +740,7 @@ def check_C19(chk):
                 stats["with_load"] += int(load)
                 stats["with_prefix"] += int(bool(prefix))
                 # only the part after the prefix's output: the transcript of the last go
-                idx = max([k for k, l in enumerate(lines[:-1]) if l.startswith("bestmove")] + [-1])
-                tail = [l for l in lines[idx + 1:] if not l.startswith("info time") and l != "readyok"]
+                tail = [l for l in lines if not l.startswith("info time") and l != "readyok"]
                 if not ok and nfail < 5:
                     nfail += 1
                     chk.violation("go depth %d on %s did not produce a bestmove (run %d)" % (d, fen, r), {"fen": fen, "depth": d, "lines": lines[-10:], "kind": "spec-oracle failure on the implementation"})
